@@ -268,11 +268,14 @@ pub struct CapW {
     pub pos: usize,
     pub cut_inside_char: bool,
     pub write_calls: u64,
+    /// refuse output beyond this many bytes (a runaway padding loop ends with an error instead of filling memory)
+    pub limit: Option<usize>,
+    pub written: usize,
 }
 
 impl CapW {
     pub fn new(script: Vec<u8>) -> CapW {
-        CapW { events: vec![], script, pos: 0, cut_inside_char: false, write_calls: 0 }
+        CapW { events: vec![], script, pos: 0, cut_inside_char: false, write_calls: 0, limit: None, written: 0 }
     }
     pub fn bytes(&self) -> Vec<u8> {
         let mut v = vec![];
@@ -297,6 +300,12 @@ impl io::Write for CapW {
         if buf.is_empty() {
             return Ok(0);
         }
+        if let Some(l) = self.limit {
+            if self.written + buf.len() > l {
+                return Err(io::Error::new(io::ErrorKind::Other, "verif: output limit exceeded"));
+            }
+        }
+        self.written += buf.len();
         let n = if self.script.is_empty() {
             buf.len()
         } else {
@@ -439,7 +448,12 @@ pub fn count_nodes(pat: &[Node], pred: &dyn Fn(&Node) -> bool) -> usize {
 
 /// Encode `rec` with `encoder` on the current thread; returns the sink.
 pub fn encode_with(encoder: &dyn log4rs::encode::Encode, rec: &Rec, script: Vec<u8>) -> (CapW, Result<(), String>) {
+    encode_limited(encoder, rec, script, None)
+}
+
+pub fn encode_limited(encoder: &dyn log4rs::encode::Encode, rec: &Rec, script: Vec<u8>, limit: Option<usize>) -> (CapW, Result<(), String>) {
     let mut w = CapW::new(script);
+    w.limit = limit;
     let r = with_rec(rec, |r| encoder.encode(&mut w, r)).map_err(|e| format!("{}", e));
     (w, r)
 }
